@@ -26,9 +26,10 @@ pub fn get_thread_identity() -> String {
 }
 
 pub fn get_date_time_string_with_milliseconds() -> String {
-    let date_format =
-        format_description::parse("[year]-[month]-[day]T[hour]:[minute]:[second].[subsecond]")
-            .unwrap();
+    let date_format = format_description::parse(
+        "[year]-[month]-[day]T[hour]:[minute]:[second].[subsecond digits:3]",
+    )
+    .unwrap();
 
     let time_str = OffsetDateTime::now_utc().format(&date_format).unwrap();
     time_str.chars().take(23).collect()
